@@ -240,4 +240,38 @@ example : build none [.g1, .comment, .s1, .g1] = some (.gfa1, 4) := by decide
 example : build none [.g1, .s1, .g2] = none := by decide
 example : build none [.custom, .hNone] = some (.gfa2, 2) := by decide
 
+/-- a caller that catches the VersionError and carries on: a refused line leaves the state as it was -/
+def runSkip (s : Stt) (ks : List Kind) : Stt := ks.foldl (fun s k => (step s k).getD s) s
+
+/-- the lines of such a history that were accepted, in order -/
+def acceptedOf (s : Stt) : List Kind → List Kind
+  | [] => []
+  | k :: ks => match step s k with
+    | some s' => k :: acceptedOf s' ks
+    | none => acceptedOf s ks
+
+/-- **a refused line is not content**: the state after a history in which refusals are caught is the state the
+    accepted lines alone lead to -/
+theorem runSkip_accepted (ks : List Kind) : ∀ s, steps s (acceptedOf s ks) = some (runSkip s ks) := by
+  induction ks with
+  | nil => intro s; rfl
+  | cons k ks ih =>
+    intro s
+    unfold acceptedOf runSkip
+    simp only [List.foldl_cons]
+    cases h : step s k with
+    | none => simpa [h, runSkip] using ih s
+    | some s' => simpa [steps, h, runSkip] using ih s'
+
+/-- … hence the version of the finished Gfa is the one the accepted lines determine by their content alone,
+    whichever lines were offered and refused in between, and each accepted line is added once -/
+theorem runSkip_spec (explicit : Option Ver) (ks : List Kind) :
+    finish (runSkip (init explicit) ks) = spec explicit (acceptedOf (init explicit) ks) := by
+  rw [← build_eq_spec]
+  unfold build
+  rw [runSkip_accepted]
+  rfl
+
+example : acceptedOf (init none) [.hNone, .g2, .s1, .g1, .hVN1] = [.hNone, .g2] := by decide
+
 end Gfa.C13
